@@ -3,6 +3,7 @@ build/run, evaluation of the executable model inside Coq (vm_compute), evidence.
 import json, os, re, struct, subprocess, sys, time, hashlib, shutil
 from fractions import Fraction
 from concurrent.futures import ThreadPoolExecutor
+from fractions import Fraction as _F
 
 ROOT = "/verif"
 COQ = f"{ROOT}/coq"
